@@ -381,6 +381,16 @@ pub fn c13_cases(quick: bool) -> Vec<SCase> {
                 for sv in &subj_vals {
                     let nested = G::Match(inner, x.clone(), vec![(vec![T::I(1)], vec![G::Eq(r(), T::I(10))]), (vec![T::W], vec![G::Eq(r(), T::I(20))])]);
                     let once = G::Onceo(vec![G::Conde(vec![vec![G::Eq(x.clone(), T::I(1))], vec![G::Eq(x.clone(), T::I(2))]])]);
+                    // two body goals that must run in the order written: y == x, then a commit on y
+                    let nested_y = G::Match(inner, y.clone(), vec![(vec![T::I(1)], vec![G::Eq(r(), T::I(10))]), (vec![T::W], vec![G::Eq(r(), T::I(20))])]);
+                    {
+                        let body = vec![G::Eq(y.clone(), x.clone()), nested_y.clone()];
+                        let one = G::Match(kind, q(), vec![(vec![T::cons(x.clone(), T::W)], body.clone())]);
+                        let two = G::Match(kind, q(), vec![(vec![T::Nil], vec![G::Eq(r(), T::I(0))]), (vec![T::cons(x.clone(), T::W)], body.clone())]);
+                        for m in [one, two] {
+                            out.push(SCase { program: Program { nq: 2, body: vec![G::Fresh(vec![3], vec![G::Eq(q(), sv.clone()), m])] }, as_query: false, take: 50, ordered: false, twin_of: None, underscore: 0 });
+                        }
+                    }
                     for body in [vec![nested.clone()], vec![once.clone(), G::Eq(r(), x.clone())], vec![G::Eq(r(), x.clone()), once.clone()]] {
                         let one = G::Match(kind, q(), vec![(vec![T::cons(x.clone(), T::W)], body.clone())]);
                         let two = G::Match(kind, q(), vec![(vec![T::Nil], vec![G::Eq(r(), T::I(0))]), (vec![T::cons(x.clone(), T::W)], body.clone())]);
